@@ -72,6 +72,72 @@ def gunz(data: bytes) -> bytes:
     return gzip.GzipFile(fileobj=io.BytesIO(data)).read()
 
 
+# Compression codecs other than gzip.  The block compressors themselves (snappy raw blocks, LZ4 frames,
+# zstd frames) come from cramjam -- the same C libraries the client uses -- but the Kafka-specific glue is
+# written here from the format descriptions: the xerial "SNAPPY" block stream that Kafka's Java client
+# writes (snappy-java SnappyOutputStream) and the choice of frame format per codec id.
+CODEC_NONE, CODEC_GZIP, CODEC_SNAPPY, CODEC_LZ4, CODEC_ZSTD = 0, 1, 2, 3, 4
+XERIAL_HEADER = bytes([0x82]) + b"SNAPPY" + b"\x00" + struct.pack(">ii", 1, 1)
+
+
+def xerial_encode(data: bytes, blocksize=32 * 1024) -> bytes:
+    import cramjam
+    out = bytearray(XERIAL_HEADER)
+    for i in range(0, len(data), blocksize):
+        block = bytes(cramjam.snappy.compress_raw(data[i:i + blocksize]))
+        out += struct.pack(">i", len(block)) + block
+    return bytes(out)
+
+
+def xerial_decode(data: bytes) -> bytes:
+    """strict: every block length is positive and the block lies inside the payload"""
+    import cramjam
+    if data[:16] != XERIAL_HEADER:
+        return bytes(cramjam.snappy.decompress_raw(data))
+    out = bytearray()
+    pos = 16
+    while pos < len(data):
+        if pos + 4 > len(data):
+            raise ValueError("truncated xerial block length")
+        n = struct.unpack_from(">i", data, pos)[0]
+        pos += 4
+        if n <= 0 or pos + n > len(data):
+            raise ValueError("xerial block length out of range")
+        out += bytes(cramjam.snappy.decompress_raw(data[pos:pos + n]))
+        pos += n
+    return bytes(out)
+
+
+def compress(codec: int, data: bytes) -> bytes:
+    if codec == CODEC_NONE:
+        return data
+    if codec == CODEC_GZIP:
+        return gz(data)
+    import cramjam
+    if codec == CODEC_SNAPPY:
+        return xerial_encode(data)
+    if codec == CODEC_LZ4:
+        return bytes(cramjam.lz4.compress(data))
+    if codec == CODEC_ZSTD:
+        return bytes(cramjam.zstd.compress(data))
+    raise NotImplementedError("codec")
+
+
+def decompress(codec: int, data: bytes) -> bytes:
+    if codec == CODEC_NONE:
+        return data
+    if codec == CODEC_GZIP:
+        return gunz(data)
+    import cramjam
+    if codec == CODEC_SNAPPY:
+        return xerial_decode(data)
+    if codec == CODEC_LZ4:
+        return bytes(cramjam.lz4.decompress(data))
+    if codec == CODEC_ZSTD:
+        return bytes(cramjam.zstd.decompress(data))
+    raise NotImplementedError("codec")
+
+
 # ---------------------------------------------------------------- v2
 
 V2_HEADER = struct.Struct(">qiibIhiqqqhii")
@@ -129,8 +195,7 @@ def encode_v2(base_offset, records, *, transactional=False, control=False, log_a
         encode_v2_record(r["offset"] - base_offset, r["timestamp"] - first_ts, r.get("key"), r.get("value"),
                          r.get("headers", [])) for r in records)
     attrs = codec & 0x07
-    if codec == ATTR_GZIP:
-        payload = gz(payload)
+    payload = compress(codec & 0x07, payload)
     if log_append_time:
         attrs |= ATTR_LOG_APPEND
     if transactional:
@@ -155,10 +220,7 @@ def decode_v2(buf, pos=0):
     end = pos + 12 + length
     data = bytes(buf[pos + V2_HEADER.size:end])
     ok_crc = crc32c(bytes(buf[pos + 21:end])) == crc
-    if attrs & 0x07 == ATTR_GZIP:
-        data = gunz(data)
-    elif attrs & 0x07:
-        raise NotImplementedError("codec")
+    data = decompress(attrs & 0x07, data)
     recs = []
     p = 0
     for _ in range(count):
@@ -214,7 +276,7 @@ def encode_legacy_message(magic, offset, timestamp, key, value, attrs=0):
     return struct.pack(">qi", offset, len(msg)) + msg
 
 
-def encode_legacy(magic, records, *, compressed=False, log_append_time=False):
+def encode_legacy(magic, records, *, compressed=False, log_append_time=False, codec=CODEC_GZIP):
     """records: list of dict(offset=<absolute>, timestamp, key, value).  Uncompressed: one message each.
     compressed (gzip): one wrapper message; v1 inner offsets are relative (0..n-1) and the wrapper
     carries the absolute offset of the last inner message; v0 inner offsets are absolute."""
@@ -232,9 +294,9 @@ def encode_legacy(magic, records, *, compressed=False, log_append_time=False):
             inner += encode_legacy_message(1, rel, r.get("timestamp", -1), r.get("key"), r.get("value"))
         else:
             inner += encode_legacy_message(0, r["offset"], -1, r.get("key"), r.get("value"))
-    attrs = ATTR_GZIP | (0x08 if (log_append_time and magic == 1) else 0)
+    attrs = codec | (0x08 if (log_append_time and magic == 1) else 0)
     wts = max(r.get("timestamp", -1) for r in records) if magic == 1 else -1
-    return encode_legacy_message(magic, last, wts, None, gz(inner), attrs)
+    return encode_legacy_message(magic, last, wts, None, compress(codec, inner), attrs)
 
 
 def decode_legacy_set(buf, pos=0, end=None, _depth=0):
@@ -265,7 +327,7 @@ def decode_legacy_set(buf, pos=0, end=None, _depth=0):
             value = body[p:p + vl]
             p += vl
         if attrs & 0x07:
-            inner = decode_legacy_set(gunz(value), _depth=_depth + 1)
+            inner = decode_legacy_set(decompress(attrs & 0x07, value), _depth=_depth + 1)
             if magic == 1:
                 # absolute = wrapper offset - (last relative - relative)
                 last_rel = inner[-1]["offset"]
